@@ -632,6 +632,194 @@ pub fn special(rec: &mut Rec, max_len: usize) {
     }
 }
 
+
+// ---------------------------------------------------------------------------------------------
+// the public arithmetic on commitment randomness (and on KZG10 commitments)
+// ---------------------------------------------------------------------------------------------
+
+/// Reference value of a randomness: coefficient-wise polynomials, `None` = no shifted part.
+#[derive(Clone, PartialEq, Debug)]
+struct RModel<P> {
+    plain: P,
+    shifted: Option<P>,
+}
+
+/// Explicit-state exploration of the four public operators (`+ &r`, `+= &r`, `+ (f,&r)`, `+= (f,&r)`)
+/// from every start value, every operand, every scalar of the alphabet, to depth `depth`; the
+/// reference value is carried along with ark-poly arithmetic only and compared after every step.
+fn rand_ops<R, P>(rec: &mut Rec, name: &str, operands: &[(String, R)], view: &dyn Fn(&R) -> RModel<P>, zero: &P, axpy: &dyn Fn(&P, Fr381, &P) -> P, depth: usize)
+where
+    R: Clone,
+    P: Clone + PartialEq,
+    for<'a> R: std::ops::Add<&'a R, Output = R> + std::ops::AddAssign<&'a R> + std::ops::Add<(Fr381, &'a R), Output = R> + std::ops::AddAssign<(Fr381, &'a R)>,
+{
+    let scal = [("1", Fr381::one()), ("0", Fr381::zero()), ("-1", -Fr381::one()), ("r2", rho::<Fr381>(rec.seed, 2))];
+    // an operation = (operator kind, operand index, scalar index)
+    let mut ops: Vec<(u8, usize, usize)> = Vec::new();
+    for o in 0..operands.len() {
+        ops.push((0, o, 0));
+        ops.push((1, o, 0));
+        for f in 0..scal.len() {
+            ops.push((2, o, f));
+            ops.push((3, o, f));
+        }
+    }
+    let apply = |x: &R, m: &RModel<P>, op: &(u8, usize, usize)| -> (R, RModel<P>) {
+        let (k, o, f) = *op;
+        let y = &operands[o].1;
+        let fy = if k < 2 { Fr381::one() } else { scal[f].1 };
+        let r = match k {
+            0 => x.clone() + y,
+            1 => {
+                let mut t = x.clone();
+                t += y;
+                t
+            }
+            2 => x.clone() + (fy, y),
+            _ => {
+                let mut t = x.clone();
+                t += (fy, y);
+                t
+            }
+        };
+        let my = view(y);
+        let shifted = match (&m.shifted, &my.shifted) {
+            (None, None) => None,
+            (a, b) => Some(axpy(a.as_ref().unwrap_or(zero), fy, b.as_ref().unwrap_or(zero))),
+        };
+        (r, RModel { plain: axpy(&m.plain, fy, &my.plain), shifted })
+    };
+    let describe = |op: &(u8, usize, usize)| -> String {
+        let (k, o, f) = *op;
+        match k {
+            0 => format!("+&{}", operands[o].0),
+            1 => format!("+=&{}", operands[o].0),
+            2 => format!("+({},&{})", scal[f].0, operands[o].0),
+            _ => format!("+=({},&{})", scal[f].0, operands[o].0),
+        }
+    };
+    rec.scope(format!("{}: {} operands x 4 operators x scalars {{1,0,-1,r2}} = {} operations, every sequence up to depth {} from every operand as start value", name, operands.len(), ops.len(), depth));
+    for (sn, start) in operands.iter() {
+        for (i0, op0) in ops.iter().enumerate() {
+            let id = format!("{}/randomness/start={}/first={}", name, sn, i0);
+            if !rec.take(&id) {
+                continue;
+            }
+            rec.dim("scheme", name);
+            let mut bad: Option<String> = None;
+            let mut nodes = 0u64;
+            // depth-first over the remaining operations
+            let mut stack: Vec<(R, RModel<P>, Vec<usize>)> = Vec::new();
+            let (r1, m1) = apply(start, &view(start), op0);
+            stack.push((r1, m1, vec![i0]));
+            while let Some((r, m, path)) = stack.pop() {
+                nodes += 1;
+                if view(&r) != m {
+                    if bad.is_none() {
+                        bad = Some(path.iter().map(|i| describe(&ops[*i])).collect::<Vec<_>>().join(" ; "));
+                    }
+                    continue;
+                }
+                if path.len() < depth {
+                    for (i, op) in ops.iter().enumerate() {
+                        let (r2, m2) = apply(&r, &m, op);
+                        let mut p2 = path.clone();
+                        p2.push(i);
+                        stack.push((r2, m2, p2));
+                    }
+                }
+            }
+            rec.count_points(nodes);
+            rec.op(nodes);
+            rec.class(if bad.is_none() { "randomness-ops-ok" } else { "randomness-ops-bad" });
+            rec.obs(&format!("{}|rand|{}|{}", name, op0.0, bad.is_none()));
+            if let Some(b) = bad {
+                rec.violation(&format!("C08/{}/randomness/not-additive", name), &id, format!("start {}: after [{}] the randomness is not the sum of the operands weighted by the scalars", sn, b));
+            }
+        }
+    }
+}
+
+fn trim_up(p: &UP<Fr381>) -> UP<Fr381> {
+    UP::<Fr381>::from_coefficients_slice(&p.coeffs)
+}
+
+pub fn randomness_algebra(rec: &mut Rec, depth: usize) {
+    use ark_poly_commit::PCCommitmentState;
+    type KR = kzg10::Randomness<Fr381, UP<Fr381>>;
+    type MR = marlin_pc::Randomness<Fr381, UP<Fr381>>;
+    type PR = ark_poly_commit::marlin_pst13_pc::Randomness<E381, MVP<Fr381>>;
+    let r = rho_stream::<Fr381>(rec.seed, 40, 12);
+    let kr = |c: &[Fr381]| -> KR {
+        let mut x = KR::empty();
+        x.blinding_polynomial = UP::<Fr381>::from_coefficients_slice(c);
+        x
+    };
+    let up_axpy = |a: &UP<Fr381>, f: Fr381, b: &UP<Fr381>| -> UP<Fr381> {
+        let n = a.coeffs.len().max(b.coeffs.len());
+        let mut v = vec![Fr381::zero(); n];
+        for (i, c) in a.coeffs.iter().enumerate() {
+            v[i] += *c;
+        }
+        for (i, c) in b.coeffs.iter().enumerate() {
+            v[i] += f * *c;
+        }
+        UP::<Fr381>::from_coefficients_vec(v)
+    };
+    let zero = UP::<Fr381>::zero();
+    // KZG10
+    let k_ops: Vec<(String, KR)> = vec![("empty".into(), KR::empty()), ("a".into(), kr(&r[0..2])), ("b".into(), kr(&r[2..5]))];
+    rand_ops::<KR, UP<Fr381>>(rec, "KZG", &k_ops, &|x: &KR| RModel { plain: trim_up(&x.blinding_polynomial), shifted: None }, &zero, &up_axpy, depth);
+    // Marlin: plain and shifted parts
+    let m_ops: Vec<(String, MR)> = vec![
+        ("empty".into(), MR::empty()),
+        ("plain".into(), MR { rand: kr(&r[0..2]), shifted_rand: None }),
+        ("both".into(), MR { rand: kr(&r[2..4]), shifted_rand: Some(kr(&r[4..6])) }),
+        ("both2".into(), MR { rand: kr(&r[6..9]), shifted_rand: Some(kr(&r[9..12])) }),
+    ];
+    rand_ops::<MR, UP<Fr381>>(rec, "MAR", &m_ops, &|x: &MR| RModel { plain: trim_up(&x.rand.blinding_polynomial), shifted: x.shifted_rand.as_ref().map(|s| trim_up(&s.blinding_polynomial)) }, &zero, &up_axpy, depth);
+    // PST13: multivariate blinding polynomials, compared through ark-poly's own arithmetic
+    let mut rng = seed_rng(rec.seed, 41);
+    let pa = PR::rand(1, false, Some(2), &mut rng);
+    let pb = PR::rand(2, false, Some(2), &mut rng);
+    let p_ops: Vec<(String, PR)> = vec![("empty".into(), PR::empty()), ("a".into(), pa), ("b".into(), pb)];
+    let mv_axpy = |a: &MVP<Fr381>, f: Fr381, b: &MVP<Fr381>| -> MVP<Fr381> {
+        // a + f*b term by term, independent of the library's operator
+        let mut terms: Vec<(Fr381, SparseTerm)> = a.terms().to_vec();
+        for (c, t) in b.terms().iter() {
+            terms.push((f * *c, t.clone()));
+        }
+        MVP::<Fr381>::from_coefficients_vec(a.num_vars().max(b.num_vars()), terms)
+    };
+    let mzero = MVP::<Fr381>::from_coefficients_vec(2, vec![]);
+    let canon = |p: &MVP<Fr381>| -> MVP<Fr381> { MVP::<Fr381>::from_coefficients_vec(2, p.terms().to_vec()) };
+    rand_ops::<PR, MVP<Fr381>>(rec, "PST", &p_ops, &|x: &PR| RModel { plain: canon(&x.blinding_polynomial), shifted: None }, &mzero, &|a, f, b| canon(&mv_axpy(a, f, b)), depth.min(2));
+    // kzg10::Commitment += (f, &c)
+    let id = "KZG/commitment-axpy".to_string();
+    if rec.take(&id) {
+        let pp = kzg_setup(4, false, rec.seed, 0);
+        let g: Vec<_> = pp.powers_of_g[..3].to_vec();
+        let fs = [Fr381::one(), Fr381::zero(), -Fr381::one(), rho::<Fr381>(rec.seed, 2)];
+        let mut ok = true;
+        for a in g.iter().chain([<E381 as Pairing>::G1Affine::zero()].iter()) {
+            for b in g.iter().chain([<E381 as Pairing>::G1Affine::zero()].iter()) {
+                for f in fs.iter() {
+                    rec.count_points(1);
+                    let mut c = kzg10::Commitment::<E381>(*a);
+                    c += (*f, &kzg10::Commitment::<E381>(*b));
+                    if c.0 != (a.into_group() + naive_mul(b, f)).into_affine() {
+                        ok = false;
+                    }
+                }
+            }
+        }
+        rec.class(if ok { "commitment-axpy-ok" } else { "commitment-axpy-bad" });
+        if !ok {
+            rec.violation("C08/KZG/commitment/axpy", &id, "c1 += (f, &c2) is not c1 + f*c2".into());
+        }
+    }
+}
+
 pub fn run(rec: &mut Rec) {
     let max_len = if rec.thorough() { 5 } else { 4 };
     group_scheme::<SMar>(rec, max_len);
@@ -642,4 +830,5 @@ pub fn run(rec: &mut Rec) {
     hash_scheme::<SMll>(rec, 4);
     hash_scheme::<SBrk>(rec, 4);
     special(rec, max_len.min(4));
+    randomness_algebra(rec, if rec.thorough() { 3 } else { 2 });
 }
